@@ -24,7 +24,7 @@ def gme_nontrivial_c15(lines):
         op, out = _fields(l)
         if not op:
             continue
-        if op[0] in ("H", "U") and _err(out) == 0:
+        if op[0] in ("H", "U", "UB") and _err(out) == 0:
             ok_updates += 1
         if op[0] in ("P", "X"):
             extra = True
@@ -37,7 +37,7 @@ def gme_nontrivial_c16(lines):
         op, out = _fields(l)
         if not op:
             continue
-        if op[0] in ("H", "U") and _err(out) != 0:
+        if op[0] in ("H", "U", "UB") and _err(out) != 0:
             return True
         if op[0] == "C":
             return True
@@ -54,6 +54,12 @@ GEN = ("histories = corpus (witnesses of G2, G3, G4 + ordinary reconfigurations 
        "the histories; in VERIF_LIVE% of the histories in-process gRPC servers on bufconn listeners are started/stopped "
        "(SU/SD) and real unary RPCs are issued (X) with no / known / unknown MultiEndpoint name; every connectivity change "
        "of a pool is its own event (P) recorded when conn.GetState() and every MultiEndpoint show it (bounded by 3 s); "
+       "VERIF_FLAP dedicated scenarios (and ~10% of the operations of live histories) are updates whose first DialFunc call "
+       "BLOCKS, so that UpdateMultiEndpoints holds gme.mu (UB): meanwhile the server of a kept READY endpoint is stopped until "
+       "its ClientConn leaves READY and its monitor is parked in notify on gme.mu.RLock (goroutine stacks), restarted until "
+       "READY again, then the dial is released; the UB line is recorded when all monitors are back in WaitForStateChange and "
+       "every MultiEndpoint shows the pool's final readiness (bounded by 3 s; given up 0.5 s after every monitor is idle with "
+       "the report still missing), followed by a P line; "
        "after every event: routes of pickConn for the contexts (none, '', me1..me4, me9), tables of every MultiEndpoint, "
        "pool table, dial log, open connections, census of monitor goroutines; RecoveryTimeout = SwitchingDelay = 0; "
        "distinct by hash of the operation list; ")
@@ -72,14 +78,14 @@ class GMEEngine(engines.HistEngine):
     props = {
         "C15": dict(monitor="c15",
                     rel={"route", "pools", "dial", "mes", "default", "call", "open", "census", "badop"},
-                    quick=dict(VERIF_N="700", VERIF_MAXOPS="10", VERIF_LIVE="20"),
-                    thorough=dict(VERIF_N="30000", VERIF_MAXOPS="16", VERIF_LIVE="25"),
+                    quick=dict(VERIF_N="700", VERIF_MAXOPS="10", VERIF_LIVE="20", VERIF_FLAP="25"),
+                    thorough=dict(VERIF_N="30000", VERIF_MAXOPS="16", VERIF_LIVE="25", VERIF_FLAP="600"),
                     nontrivial=gme_nontrivial_c15,
                     rule=GEN + "non-trivial = at least two accepted configurations, or one plus a connectivity change / RPC"),
         "C16": dict(monitor="c16",
                     rel={"error", "route", "pools", "dial", "mes", "default", "open", "census", "badop"},
-                    quick=dict(VERIF_N="700", VERIF_MAXOPS="10", VERIF_LIVE="20"),
-                    thorough=dict(VERIF_N="30000", VERIF_MAXOPS="16", VERIF_LIVE="25"),
+                    quick=dict(VERIF_N="700", VERIF_MAXOPS="10", VERIF_LIVE="20", VERIF_FLAP="25"),
+                    thorough=dict(VERIF_N="30000", VERIF_MAXOPS="16", VERIF_LIVE="25", VERIF_FLAP="600"),
                     nontrivial=gme_nontrivial_c16,
                     rule=GEN + "non-trivial = the history contains a rejected construction/update or a Close"),
     }
